@@ -84,19 +84,24 @@ def m1prop(pid, props_file, prefixes, quick=300, thorough=6000, extra=None, spec
                 monitor_prefixes=prefixes, search_n=3000, harness_timeout=1200, extra=extra)
 
 PROPS['C01'] = m1prop('C01', 'theories/Props/C01.v', ['C01', 'panic', 'hang'],
-                      extra=scenario_extra(('C01-new-session-request-never-concluded', 30, 'gated: Stop, Start and a new request while the callback routine of the first session is still inside an application callback; the new request is concluded exactly once, at its own callback (F35)'),
+                      extra=scenario_extra(('C01-accepted-request-never-sent', 28, 'gated: two clients complete a request while the server pump is busy with a third, each with a further request queued: both follow-up requests are written (none stays accepted but never sent)'),
+                                            ('C01-callback-of-refused-request-fires', 38, 'central system: a request sent from the disconnect handler to the client whose session has just ended is refused and its callback never fires; after the reconnection a request is answered at its own callback'),
+                                            ('C01-new-session-request-never-concluded', 30, 'gated: Stop, Start and a new request while the callback routine of the first session is still inside an application callback; the new request is concluded exactly once, at its own callback (F35)'),
                                             ('C01-conclusion-delivered-after-stop', 31, 'gated: Stop while a conclusion waits for the busy callback routine, 16 tries; nothing is delivered once Stop has returned (F36)'),
                                             ('C01-callback-registration-not-atomic', 8, 'gated: two concurrent senders on one charge point, the first held inside the request queue and then refused; its callback must never run, the other sender gets its own reply'),
                                             ('C01-stale-conclusion-after-restart', 12, 'gated: Stop overtakes a conclusion on its way to the callback routine, 12 tries; after Start the first callback gets its own reply (F32)'),
                                             ('C01-reply-racing-timeout', 22, 'gated (RequestQueue.Peek held): the reply to a request and its timeout are handled at the same time; the request is concluded exactly once, the next requests are written, answered and concluded (F9)'),
                                             ('C01-conclusions-reordered', 19, 'gated: while the callback routine is busy a response and then an error are concluded, 12 tries; each reaches its own callback (F5)')))
 PROPS['C02'] = m1prop('C02', 'theories/Props/C02.v', ['C02'],
-                      extra=scenario_extra(('C02-outstanding-written-twice', 10, 'gated: the connection drops while the dispatcher is inside ws.Client.Write (the write succeeds); after the reconnection another request is queued: still one outstanding CALL, written once'),
+                      extra=scenario_extra(('C02-rewritten-after-malformed-answer', 33, 'the peer answers the outstanding CALL with a CALL_RESULT whose payload is unusable: the CALL is written once, neither again after its timeout when the next request follows (server) nor after a reconnection (client)'),
+                                            ('C02-rewritten-after-late-session-cleanup', 34, 'gated: the application disconnect handler of an ended session returns only after the same id has reconnected and been sent a CALL: that CALL is written once and its reply is accepted'),
+                                            ('C02-outstanding-written-twice', 10, 'gated: the connection drops while the dispatcher is inside ws.Client.Write (the write succeeds); after the reconnection another request is queued: still one outstanding CALL, written once'),
                                             ('C02-written-twice-after-timeout', 26, 'server: a request times out and the cancel handler sends the next one to the same client, 6 tries; it is written once (F19)'),
                                             ('C02-written-twice-by-reconnect-racing-dispatch', 21, 'gated (RequestQueue.IsEmpty held): the connection drops and comes back while the pump is about to dispatch a request; the request is written once (F16)'),
                                             ('C02-written-twice-after-restart', 11, 'gated: Stop overtakes a ready token, 12 tries; after Start the first request is written exactly once (F31)')))
 PROPS['C07'] = m1prop('C07', 'theories/Props/C07.v', ['C07', 'hang', 'panic'],
-                      extra=scenario_extra(('C07-senders-vs-disconnect-deadlock', 6, 'real sockets: 4 goroutines keep sending on a charge point while the central system drops its connection 12 times; every send and the final Stop must return (F30)'),
+                      extra=scenario_extra(('C07-application-callback-on-the-pump', 35, 'central system and CSMS: the callback of a timed-out request blocks; the exchange with another station still completes (callbacks never run on the message pump)'),
+                                            ('C07-senders-vs-disconnect-deadlock', 6, 'real sockets: 4 goroutines keep sending on a charge point while the central system drops its connection 12 times; every send and the final Stop must return (F30)'),
                                             ('C07-resume-blocks-pump', 9, 'gated: a write fails and the pump sits in the application cancel callback while the connection drops and comes back; Resume must not block the pump, the endpoint keeps working'),
                                             ('C07-pause-waits-for-taken-expiry', 29, 'gated: a request times out and the connection drops while the pump is inside the cancel callback; the disconnection is processed, the reconnected endpoint sends again (F34)'),
                                             ('C07-expiries-exceed-timer-channel', 32, 'gated: the requests of 14 clients expire while the pump is held in the first cancel callback (the timer channel holds 10) and a client disconnects meanwhile: all are cancelled, the disconnection returns, a later request is served, Stop returns (F37)'),
@@ -106,7 +111,9 @@ PROPS['C07'] = m1prop('C07', 'theories/Props/C07.v', ['C07', 'hang', 'panic'],
                                             ('C07-simultaneous-timeouts-stall', 20, 'the requests of 8 clients time out at the same moment: all 8 are cancelled and the dispatcher still serves a request sent afterwards (F18)'),
                                             ('C07-server-burst-deadlock', 13, '60 concurrent server-side sends (the request channel holds 20) with a 15 ms network write: every SendRequest returns and all 60 requests are written (F3)')))
 PROPS['C09'] = m1prop('C09', 'theories/Props/C09.v', ['C09'],
-                      extra=scenario_extra(('C09-stale-reply-accepted-after-reconnect', 7, 'bare ocppj.Server without an application disconnect handler: a session ends with a request outstanding, the same id reconnects; a late reply carrying the old id is ignored and only the genuine reply is delivered')))
+                      extra=scenario_extra(('C09-foreign-reply-answered', 37, 'both roles, a request outstanding: truncated and well-formed CALL_ERROR / CALL_RESULT frames carrying a foreign id arrive: nothing is written back, no handler or hook fires, the genuine reply is then accepted'),
+                                            ('C09-reply-discarded-after-late-session-cleanup', 34, 'gated: slow disconnect handler of the ended session, same id reconnected: the reply to the new session CALL is accepted'),
+                                            ('C09-stale-reply-accepted-after-reconnect', 7, 'bare ocppj.Server without an application disconnect handler: a session ends with a request outstanding, the same id reconnects; a late reply carrying the old id is ignored and only the genuine reply is delivered')))
 PROPS['C10'] = m1prop('C10', 'theories/Props/C10.v', ['C10'],
                       extra=scenario_extra(('C10-rewritten-after-reconnect', 10, 'gated: the connection drops while the dispatcher is inside ws.Client.Write (the write succeeds); after the reconnection another request is queued: the outstanding request is not written again'),
                                             ('C10-written-while-disconnected', 14, 'the application sends a request from inside its disconnect handler (and lingers there): nothing is handed to the network until the reconnection, then the request is written once and not cancelled')))
@@ -114,13 +121,18 @@ PROPS['C11'] = Prop('C11', harness='c11', entries=['c11rt', 'm1c', 'm1c_h', 'm1c
                     trusted=M1_TRUSTED + ['real-time lane c11rt: wall-clock trace of writes and conclusions, judged by the Coq-proved timing monitor of C08'],
                     assumptions=M1_ASSUME, rule='real-time lane: server endpoints of both versions, a request outstanding when the session ends, the same id reconnects, a new request must get its own full timeout (2 runs per version, thorough 10); ' + M1_RULE,
                     design_ref='5 C11', confirm_slow=True, monitor_prefixes=['C11'], spec_entries=['c11rt'], search_n=3000, harness_timeout=1200,
-                    extra=scenario_extra(('C11-completion-of-one-client-swallows-another', 28, 'gated: while the pump is busy writing to client C the replies of A and B arrive, each with a further request queued: both follow-up requests are written'),
+                    extra=scenario_extra(('C11-late-cleanup-of-ended-session-hits-new-session', 34, 'gated: the application disconnect handler of an ended session returns only after the same id has reconnected and been sent a CALL: nothing of the new session is touched'),
+                                            ('C11-request-accepted-for-ended-session', 38, 'central system: a request sent from the disconnect handler to the client whose session has just ended is refused; the next session of that id is not disturbed'),
+                                            ('C11-idle-session-leaves-a-mark', 36, 'a client connects and disconnects without traffic, reconnects, gets two CALLs: the first times out normally and the second is written'),
+                                            ('C11-one-callback-stalls-all-stations', 35, 'central system and CSMS: the blocked callback of one station cancelled request does not keep another station from being served'),
+                                            ('C11-completion-of-one-client-swallows-another', 28, 'gated: while the pump is busy writing to client C the replies of A and B arrive, each with a further request queued: both follow-up requests are written'),
                                          ('C11-session-end-touches-another-client', 27, 'requests outstanding for clients X and Y; X\'s session ends: Y\'s request keeps its timeout and is cancelled exactly once at its deadline'),
                                          ('C11-new-session-held-by-old-timeout', 24, 'gated: a client disconnects with a request outstanding and the same id reconnects before the pump (busy writing to another client) has handled the disconnection; a request to the new session is written promptly (F13)'),
                                          ('C11-timeout-of-one-client-dispatches-for-another', 16, 'client C times out right after client A completed an exchange; the application\'s cancel handler sends a request to A: it goes to A once, nothing is written to C, nothing crashes (F1)'),
                                          ('C11-stale-pending-after-session-end', 7, 'bare ocppj.Server without an application disconnect handler: a session ends with a request outstanding, the same id reconnects, the reply to the new session\'s first request must be accepted')))
 PROPS['C16'] = m1prop('C16', 'theories/Props/C16.v', ['C16', 'panic'], spec_entries=['m1c_fresh'],
-                      extra=scenario_extra(('C16-restart-while-callback-busy', 30, 'gated: Stop, Start and a new request while the callback routine of the first session is still inside an application callback; the new request is concluded at its own callback (F35)'),
+                      extra=scenario_extra(('C16-ws-client-restart-not-fresh', 41, 'ws client, real sockets: four sessions on one client object alternating Start and StartWithRetries, each connects, echoes a message and stops'),
+                                            ('C16-restart-while-callback-busy', 30, 'gated: Stop, Start and a new request while the callback routine of the first session is still inside an application callback; the new request is concluded at its own callback (F35)'),
                                             ('C16-callback-after-stop', 31, 'gated: Stop while the callback routine is busy and a further conclusion waits for it, 16 tries; no callback fires once Stop has returned (F36)'),
                                             ('C16-send-racing-stop', 5, 'real sockets: 4 goroutines send on a charge point while Stop is called, 40 rounds; nothing may crash or block (F10)'),
                                             ('C16-stale-ready-token-after-restart', 11, 'gated: Stop arrives while a ready token is unconsumed (pump held in the cancel callback), 12 tries; after Start the first request is written exactly once (F31)'),
@@ -159,7 +171,8 @@ PROPS['C08'] = Prop('C08', harness='c08', entries=['c08rt', 'm1c', 'm1c_h', 'm1c
                     assumptions=M1_ASSUME + ['real-time lane: a timeout earlier than 6 ms before the deadline counts as early (measurement tolerance); lateness is only checked as "concluded within the observation window (deadline + >= 60 ms)"'],
                     rule='real-time lane: 5 client + 5 server scenarios x 2 protocol versions on the real timers (timeout 160 ms, random jitter 0-24 ms): plain timeout + next request, reply late in the window, disconnect / reconnect across the deadline, answered-then-idle, staggered deadlines of two clients, session end + reconnect of the same id; the measured timed trace is the input of the Coq monitor. Virtual lane: ' + M1_RULE,
                     design_ref='5 C08', confirm_slow=True, monitor_prefixes=['C08'], spec_entries=['c08rt'], search_n=1500, harness_timeout=1500,
-                    extra=scenario_extra(('C08-next-request-cancelled-by-stale-timeout', 23, 'gated: the reply to a request arrives when its timeout has just expired and the pump is busy, 8 tries; the next request gets its own full timeout (F8)', ),
+                    extra=scenario_extra(('C08-never-times-out-after-idle-session', 36, 'a client connects and disconnects without traffic, reconnects, gets two CALLs and leaves the first unanswered: it is cancelled by its timeout, once and not early, and the second is written'),
+                                            ('C08-next-request-cancelled-by-stale-timeout', 23, 'gated: the reply to a request arrives when its timeout has just expired and the pump is busy, 8 tries; the next request gets its own full timeout (F8)', ),
                                          ('C08-timeout-lost-when-another-session-ends', 27, 'requests outstanding for clients X and Y; X disconnects: Y\'s request still times out at its own deadline, exactly once'),
                                          ('C08-request-after-timeout-loses-its-timeout', 26, 'a request times out and the cancel handler sends the next one to the same client, 6 tries; it is written once and times out on its own (F19)'), quick=2, thorough=12))
 MANIFEST_TEXT['C08'] = dict(
@@ -249,7 +262,9 @@ PROPS['C13'] = Prop('C13', harness='c13', entries=['c13', 'c13b'], props_file='t
                                  'only handshakes that pass auth / check / origin / negotiation are events of this model (C14 covers the others)'],
                     rule='real ws server on loopback: seeded random sequences (4-17 events over 3 ids) of connect / duplicate connect / client close frame / abrupt TCP reset (SO_LINGER 0) / StopConnection / server Write / server Stop, compared with the registry model after every event (callbacks, refusals, write results, GetChannel of every id); plus concurrent connect bursts on 2 ids judged by a monitor (one winner per id, callback counts, registry empty afterwards); quick 27 sequences + 6 bursts, thorough 400 + 120',
                     design_ref='5 C13', monitor_prefixes=['C13'], confirm_slow=True, harness_timeout=3000, spec_entries=['c13'], search_n=400,
-                    extra=scenario_extra(('C13-second-live-connection-after-stopconnection', 15, 'real sockets: StopConnection on a connection whose write routine is busy (64 MiB to a peer that does not read); until its disconnected callback a second connection with the same id is refused with 1008, afterwards a new one works', ), quick=2, thorough=12))
+                    extra=scenario_extra(('C13-stale-entry-replaced', 39, 'real sockets: a duplicate connection for id x is checked while the removal of the dropped first connection of x is queued behind it (the table is held by a Write blocked on a peer that does not read): at quiescence reported ids = live connections, at most one per id, callbacks pair up'),
+                                            ('C13-disconnected-more-than-once', 40, 'real sockets: six concurrent StopConnection calls on one id, 12 rounds: each connection announced once, reported disconnected exactly once, not reported afterwards'),
+                                            ('C13-second-live-connection-after-stopconnection', 15, 'real sockets: StopConnection on a connection whose write routine is busy (64 MiB to a peer that does not read); until its disconnected callback a second connection with the same id is refused with 1008, afterwards a new one works', ), quick=2, thorough=12))
 MANIFEST_TEXT['C13'] = dict(
     text='Coq theorems on the registry LTS, for every sequence of events: at most one live connection per id; a duplicate connect is refused without callback and leaves the existing connection untouched; every connection is in exactly one lifecycle state (nothing / refused / connected once and registered / connected once then disconnected once, same id, in that order); the reported ids are exactly the live connections; Write succeeds exactly for registered ids. The model is compared with the real server over loopback sockets after every event of seeded sequences, and concurrent bursts are judged by a monitor on the implementation.',
     note='Trusted: Coq kernel, extraction, harness; gorilla/websocket, net/http, TCP loopback exercised, not verified. Partial: pump-level interleavings inside one connection (cleanup vs blocked writers, run() before the new-client handler) are below the model\'s granularity.',
@@ -260,7 +275,8 @@ PROPS['C15'] = Prop('C15', harness='c15', entries=['c15', 'c15c'], props_file='t
                     assumptions=['the model is handler-atomic: a writer\'s enqueue, one pump delivery, the close; messages are opaque',
                                  'writers blocked on the full output queue are part of the queue in the model (they are released by the close since the repair F6)'],
                     rule='real loopback sockets, three directions (server -> raw client, library client -> server, server -> library client): sequential scenarios of 3-12 writes of boundary sizes (0, 1, 2, 125, 126, 127, 1000, 65535, 65536, 70000, 1 MiB; multi-byte UTF-8 content) with a close from either side at a random point, compared with the model (result of every Write, delivered sequence); concurrent lane: 1 / 2 / 4 / 8 writers x 12 messages, with and without a racing close (StopConnection, peer close, raw TCP close), judged by a monitor: per-writer order, exactly once, byte-for-byte content, nothing lost while open, every Write returns within 4 s, no panic',
-                    design_ref='5 C15', monitor_prefixes=['C15'], confirm_slow=True, harness_timeout=3000, spec_entries=['c15'], search_n=600)
+                    design_ref='5 C15', monitor_prefixes=['C15'], confirm_slow=True, harness_timeout=3000, spec_entries=['c15'], search_n=600,
+                    extra=scenario_extra(('C15-write-blocks-after-stalled-peer-kept-pinging', 42, 'real sockets: a peer stops reading but keeps pinging while the server writes more than the buffers hold; after the write timeout the disconnected callback fires, blocked writers are released with an error, later Writes fail at once and Stop returns'), quick=2, thorough=10))
 MANIFEST_TEXT['C15'] = dict(
     text='Coq theorems on the connection\'s outbound path, for every schedule of writers / pump / close: delivered is a prefix of accepted (exactly once, in order), per-writer order, nothing lost while open, a write on a closed connection errors without effect. Compared with the real ws server and client over loopback sockets in three directions (boundary sizes up to 1 MiB, closes at random points); concurrent writers racing a close are judged on the implementation (order, exactly-once, content, progress of every Write, no panic).',
     note='Trusted: Coq kernel, extraction, harness; gorilla/websocket framing, the kernel and TCP are exercised, not verified. Partial: delivery itself is the network\'s; the theorems speak of the library\'s queueing discipline.',
@@ -273,7 +289,8 @@ PROPS['C17'] = Prop('C17', harness='c17', entries=['c17', 'c17k'], props_file='t
                                  'a Stop racing the instant the back-off delay elapses (both select arms ready) is not forced by the harness'],
                     rule='label sequences over {start, connection loss (TCP reset, or close frame 1000 / 1001 sent by the server), dial fails, dial succeeds, stop} on the real ws client against a raw loopback server with parked dials: a corpus (first retry succeeds, four failed retries, stopped-and-restarted client, stop during a dial that fails / succeeds, loss by a close frame 1000 / 1001 from the server) plus seeded random sequences (quick 10, thorough 150), compared with the model (handler trace, number of dials, final phase); 6 real-time keep-alive scenarios (peer stops answering pings; healthy idle connection; server side: silent client, pinging client; server with its own pings: client that never answers, client that answers) judged by a monitor',
                     design_ref='5 C17', monitor_prefixes=['C17'], confirm_slow=True, harness_timeout=3000, spec_entries=['c17'],
-                    extra=scenario_extra(('C17-reconnection-attempt-after-stop', 18, 'ws client, real sockets, gated through ws.SetLogger: Stop while a connection loss is being handled; after Stop has returned no dial, no connection, no reconnected callback')))
+                    extra=scenario_extra(('C17-restarted-client-never-connects', 41, 'ws client, real sockets: four sessions on one client object alternating Start and StartWithRetries; after a Stop the next start connects again'),
+                                            ('C17-reconnection-attempt-after-stop', 18, 'ws client, real sockets, gated through ws.SetLogger: Stop while a connection loss is being handled; after Stop has returned no dial, no connection, no reconnected callback')))
 MANIFEST_TEXT['C17'] = dict(
     text='Coq theorems on the reconnection machine: any number of failed dials keeps the loop going; back-off doubled (plus the random range) for the first repeat attempts then constant; a restarted client has no stale abort signal (repaired F7); once idle only Start connects; Stop during a dial ends the loop whether that dial fails or succeeds (a connection established after Stop is dropped: repaired F26), and from a Stop on, until the next Start, no sequence of losses, dials and further Stops makes the client connected; keep-alive deadline bookkeeping (silent peer detected by last activity + wait, healthy peer never dropped). The machine is compared with the real client against a raw loopback server with parked dials; keep-alive runs in real time under a monitor.',
     note='Trusted: Coq kernel, extraction, harness; gorilla/websocket, timers and TCP are exercised, not verified. Partial as stated in DESIGN.md: the runtime half of the property (timers firing, the network noticing a reset) is observed, not proved.',
